@@ -64,8 +64,15 @@ def build_body(pt, ts, case, log_mode):
     root = ts.new_instance()
     named = case.get("named") and isinstance(ts, abi.TupleTypeSpec) and len(ts.value_type_specs()) > 0
     if named:
+        def field_annotation(s):
+            # named_nested: tuple members become NamedTuple classes of their own, reached only through the outer class's
+            # annotations; every case calls them "Inner", with whatever fields that case has
+            if case.get("named_nested") and type(s) is abi.TupleTypeSpec and len(s.value_type_specs()) > 0:
+                inner = {"g%d" % j: abi.Field[field_annotation(x)] for j, x in enumerate(s.value_type_specs())}
+                return type("Inner", (abi.NamedTuple,), {"__annotations__": inner})
+            return s.annotation_type()
         try:
-            ann = {"f%d" % i: abi.Field[s.annotation_type()] for i, s in enumerate(ts.value_type_specs())}
+            ann = {"f%d" % i: abi.Field[field_annotation(s)] for i, s in enumerate(ts.value_type_specs())}
         except TypeError:  # annotation_type() has no spelling for tuples longer than Tuple5
             named = False
         else:
@@ -274,7 +281,7 @@ def gen_case(rng, shapes, i):
         mode = "length"
     backend = rng.choice(["main", "sub", "sub_scratch"])
     case = {"type": tstr, "value": _val_to_json(val), "path": path, "log_mode": mode, "version": rng.choice([6, 7, 8, 9, 10]),
-            "backend": backend, "how": rng.randrange(2), "named": rng.random() < .3}
+            "backend": backend, "how": rng.randrange(2), "named": rng.random() < .3, "named_nested": rng.random() < .5}
     if rng.random() < .2:
         other = abigen.rand_val(rng, st)
         if _nodes(other) <= 200:
